@@ -366,6 +366,23 @@ def run(prop, tier):
                     records.append(dict(id=rid, kind="history", before=DG.dig(alone[key]), after=DG.dig(joint.get(key))))
                     index[rid] = dict(model=mname, history="requested together with another result (order %s)" % [r_.name for r_ in order], items=list(key), before=alone[key][1:3], after=(joint.get(key) or [])[1:3])
                     rid += 1
+    # the same request in fresh interpreters with different string hashing: what is reported depends on what was asked for, not on the process
+    import subprocess
+    import sys as _sys
+    import json as _json
+
+    fresh = {}
+    for hs in (0, 1, 2, 3):
+        p_ = subprocess.run([_sys.executable, "-m", "harness.props_c20", "mixed"], cwd=C.VERIF, env=dict(os.environ, PYTHONHASHSEED=str(hs)), stdout=subprocess.PIPE, stderr=subprocess.STDOUT, text=True, timeout=600)
+        lines = [l for l in p_.stdout.splitlines() if l.startswith("FRESH ")]
+        if not lines:
+            raise C.MachineryError("fresh-process request failed:\n" + p_.stdout[-1500:])
+        fresh[hs] = _json.loads(lines[-1][6:])
+    for hs in (1, 2, 3):
+        for key in sorted(fresh[0]):
+            records.append(dict(id=rid, kind="history", before=DG.dig(fresh[0][key]), after=DG.dig(fresh[hs].get(key))))
+            index[rid] = dict(model="udt", history="same request in a fresh interpreter (PYTHONHASHSEED 0 vs %d)" % hs, items=[key], before=fresh[0][key][:2], after=(fresh[hs].get(key) or [])[:2])
+            rid += 1
     bad, states = C.validate_batch(["Big", "AggregateTrace"], "AggregateTrace", records, ndjson=True, timeout=3000)
     cov["states"] += states
     cov["transitions"] += states
@@ -381,3 +398,23 @@ def run(prop, tier):
         V.violation("C20 " + sig, dict(clause=clause, **d))
     cov["samples"] = [index[0], index[len(index) // 2]]
     return V, cov, time.time() - t0
+
+
+if __name__ == "__main__":
+    # fresh-process entry point: aggregations that mix quantities of different units, default methods (nothing but the request decides the value)
+    import json as _json
+
+    at_ = C.quiet_atomica()
+    P_ = at_.demo("udt", do_run=False)
+    r_ = P_.run_sim(P_.parsets[0], store_results=False)
+    r_.name = "r"
+    F_ = P_.framework
+    nums = [c for c in F_.characs.index if not isinstance(F_.characs.at[c, "denominator"], str)][:2]
+    rates = [p for p in F_.pars.index if str(F_.pars.at[p, "format"]).lower() in ("rate", "probability") and p in r_.model.pops[0].par_lookup][:2]
+    out = {}
+    for a_ in nums:
+        for b_ in rates:
+            for order in ([a_, b_], [b_, a_]):
+                d_ = at_.PlotData(r_, outputs=[{"mix": order}], pops=[r_.model.pops[0].name])
+                out["+".join(order)] = [float(x) for x in d_.series[0].vals[:6]]
+    print("FRESH " + _json.dumps(out))
